@@ -69,6 +69,7 @@ type depTruth struct {
 	TaxCap     uint64
 	MinDeposit uint64
 	ELSeen     int
+	Malformed  bool // mined on purpose with a layout that must never be credited
 }
 
 func (d *depTruth) id() string { return fmt.Sprintf("%x/%d", d.Txid, d.Vout) }
@@ -105,6 +106,7 @@ type bridgeHist struct {
 	extraMembers     func() []*world.Member // relayer members beyond the genesis ones (joined candidates)
 	acceptedDeposits []*depTruth            // credited by accepted batches, in order, since the last reset
 	evmCtr           int
+	malformed        []*depTruth
 	depositBurst     bool // mine and submit more deposits at once than one block may hand over
 }
 
